@@ -465,6 +465,15 @@ def run(ctx, ck):
         gfl2 = ctx.flow(g)
         apps = [c for c in walk_no_nested(g.node) if isinstance(c, ast.Call) and isinstance(c.func, ast.Attribute)
                 and c.func.attr == 'append' and norm(c.func.value) in ('self.transforms', 'self.scales')]
+        if not apps:
+            # recorded by something the method calls (a record object that enters itself into the container): if an
+            # append to the record lists - or to a list handed out by a helper - is reachable, the recording is there
+            # but not followed here
+            far = [c for q2 in prog.closure([g]) if q2 in m.funcs and q2 != g.qual for c in walk_no_nested(m.funcs[q2].node)
+                   if isinstance(c, ast.Call) and isinstance(c.func, ast.Attribute) and c.func.attr == 'append' and
+                   (norm(c.func.value).endswith(('.transforms', '.scales')) or isinstance(c.func.value, ast.Call))]
+            if far:
+                raise AnalysisError('%s: the transformation is recorded through %s, which is not followed' % (q, norm(far[0])[:60]))
         ok = len(apps) == 1 and gfl2.cfg.must_pass(gfl2.cfg.exit.id, {gfl2.node_id_of(apps[0])})
         ck.ob('R-EXH.writer-loops', q + '|recorded', ok, g.loc(), 'every transformation is recorded for the writer')
 
@@ -577,6 +586,36 @@ def run(ctx, ck):
           'attachment) but the reader numbers them by class order %s: a Laplace-type load attached '
           'before a simple load is read back with the attachments swapped' % order if not ok else
           'load definitions are written in the order the reader numbers them')
+    # an option is left out only when the reader's default reproduces the value
+    ck.rule('R-WR.default-omission', 'the source voltage is left out of the option file only when the whole complex voltage equals the default 1')
+    from ..symx import SymExec as _SX
+    ew = m.func('mininec.Excitation.as_cmdline')
+    n_om = 0
+    bad_om = None
+    for p_ in _SX(ctx, ew, depth=3, bind_loops=True).run():
+        if p_.end == 'raise' or p_.ret is None:
+            continue
+        txt_ = ' '.join(c_.value for c_ in ast.walk(p_.ret) if isinstance(c_, ast.Constant) and isinstance(c_.value, str))
+        stores_ = ' '.join(c_.value for ev_ in p_.events for x_ in ev_ if isinstance(x_, ast.AST)
+                           for c_ in ast.walk(x_) if isinstance(c_, ast.Constant) and isinstance(c_.value, str))
+        if 'excitation-voltage' in txt_ or 'excitation-voltage' in stores_:
+            continue
+        n_om += 1
+        conds_ = [(t_, b_) for t_, b_ in p_.conds if isinstance(t_, str) and isinstance(b_, bool)]
+        whole = any((re.match(r'^self\.voltage != (1|1\.0|1 \+ 0j|\(1\+0j\))$', t_) and b_ is False) or
+                    (re.match(r'^self\.voltage == (1|1\.0|1 \+ 0j|\(1\+0j\))$', t_) and b_ is True) for t_, b_ in conds_)
+        parts = {nm_ for nm_, v_ in (('real', '1'), ('imag', '0')) for t_, b_ in conds_
+                 if (re.match(r'^self\.voltage\.%s == %s(\.0)?$' % (nm_, v_), t_) and b_ is True) or
+                 (re.match(r'^self\.voltage\.%s != %s(\.0)?$' % (nm_, v_), t_) and b_ is False) or
+                 (nm_ == 'imag' and ((t_ == 'self.voltage.imag' and b_ is False) or (t_ == 'not self.voltage.imag' and b_ is True)))}
+        if not whole and parts != {'real', 'imag'}:
+            bad_om = bad_om or [t_ for t_, b_ in conds_][:4]
+    if n_om == 0:
+        raise AnalysisError('%s: no path leaves the voltage option out - the form of the writer is not understood' % ew.qual)
+    ck.ob('R-WR.default-omission', ew.qual, bad_om is None, ew.loc(),
+          'the voltage is omitted only under `self.voltage == 1` (%d paths)' % n_om if bad_om is None else
+          'a path writes no --excitation-voltage although only %s was tested: a voltage of magnitude / real part 1 with another '
+          'phase is re-read as the default 1+0j' % bad_om)
     # the writer prints the geometry as it was entered: the snapshot must not share its array with state that is
     # updated in place
     ck.rule('R-ALIAS.snapshot', 'an attribute that is another name of an array attribute (`self.a = self.b`) is not changed through in-place updates of either')
